@@ -3,12 +3,16 @@
 (* of a Bristol text file as a set of edits, for a file with NLines lines   *)
 (* of at most MaxFields whitespace-separated fields.  One state per edit.   *)
 (* Replacement tokens: small numbers, counts off by one, 2^31, 2^64 - 1,    *)
-(* 2^64, negative numbers, non-numbers, unknown gate names, empty.          *)
+(* 2^64, negative numbers, non-numbers, unknown gate names, empty, and the  *)
+(* boundary values relative to the file's own header (last wire, one past,  *)
+(* two past, gate count, one more).                                         *)
 EXTENDS Naturals, Sequences, TLC, Json
 CONSTANTS NLines, MaxFields
 VARIABLE e
 Tokens == {"0", "1", "2", "3", "7", "2147483648", "4294967295", "4294967296",
-           "18446744073709551615", "18446744073709551616", "-1", "x", "XOR", "AND", "INV", "EQ", "MAND", ""}
+           "18446744073709551615", "18446744073709551616", "-1", "x", "XOR", "AND", "INV", "EQ", "MAND", "",
+           \* relative tokens, resolved by the harness against the header of the base file: its wire count W and gate count G
+           "@W-1", "@W", "@W+1", "@G", "@G+1"}
 Edits ==
     {[k |-> "subst", line |-> ln, field |-> fd, tok |-> t] : ln \in 1..NLines, fd \in 1..MaxFields, t \in Tokens}
     \cup {[k |-> "insert", line |-> ln, field |-> fd, tok |-> t] : ln \in 1..NLines, fd \in 1..MaxFields, t \in {"0", "1", "x"}}
